@@ -74,7 +74,7 @@ def run(pid, tier, seed, replay=None):
         print("replay:", ans)
         print("VIOLATION property=%s replay=%s" % (pid, replay) if not (corr and prop) or kn else "replay: property holds on this input now")
         return 1 if not (corr and prop) else 0
-    nl, nf = (1200, 300) if tier == "quick" else (16000, 4000)
+    nl, nf = (1200, 300) if tier == "quick" else (6000, 1500)
 
     def explore(nl, nf, seed, only_prop=False):
         cs = cases(tier, seed, nl, nf, rep)
